@@ -156,6 +156,7 @@ type caseSpec struct {
 	Extra    bool               `json:"extra_user_file"`     // an unrelated user hook (pre-commit) in the hooks dir
 	Filters  []filterPre        `json:"filters"`
 	Seq      []cmdSpec          `json:"seq"`
+	Fault    *faultSpec         `json:"fault,omitempty"` // faults.go: the one command of Seq runs with an injected syscall error
 }
 
 func pick[T any](r *rand.Rand, l []T) T { return l[r.Intn(len(l))] }
@@ -716,5 +717,9 @@ func (cs caseSpec) className() string {
 	if ff == "" {
 		ff = "-"
 	}
-	return fmt.Sprintf("%s hook=%s filter=%s hooksPath=%s layout=%s seq=%s", cs.Template, fh, ff, cs.HooksPath, cs.Layout, strings.Join(seqShape, ","))
+	name := fmt.Sprintf("%s hook=%s filter=%s hooksPath=%s layout=%s seq=%s", cs.Template, fh, ff, cs.HooksPath, cs.Layout, strings.Join(seqShape, ","))
+	if cs.Fault != nil {
+		name += " fault=" + cs.Fault.trigger()
+	}
+	return name
 }
